@@ -628,15 +628,21 @@ fn bitstr_num_tags(bs: Bitstr, bo: Byteorder) -> Xmap {
 // peek the NUL-terminated byte string at the cursor: (bytes incl. NUL, its length in bits)
 fn nulbytestr_peek(xs: &mut Xstate) -> Xresult1<(Bitstr, usize)> {
     let mut s = rest_bits(xs)?;
-    if !s.is_bytestr() {
-        return Err(Xerr::ToBytestrError(s));
-    }
+    // only the bytes up to the NUL are read: what follows them need not be whole bytes
     let mut len = 0;
+    let mut found = false;
     for (x, n) in s.iter8() {
-        len += n as usize;
-        if x == 0 {
+        if n < 8 {
             break;
         }
+        len += n as usize;
+        if x == 0 {
+            found = true;
+            break;
+        }
+    }
+    if !found && !s.is_bytestr() {
+        return Err(Xerr::ToBytestrError(s));
     }
     let ss = s.read(len).unwrap();
     Ok((ss, len))
